@@ -59,6 +59,7 @@ type CheckCfg struct {
 	TimeBudgetS int               `json:"time_budget_s"`
 	TimeBudgetThoroughS int       `json:"time_budget_thorough_s"`
 	NoSpeculate bool              `json:"no_speculate"`
+	AbstractCRC bool              `json:"abstract_crc"`
 	Replace     map[string]string `json:"replace"` // module path -> directory (relative to the harness dir) used via a generated -modfile
 }
 
@@ -108,6 +109,7 @@ type runCfg struct {
 	NoIntrinsic     map[string]bool
 	Thorough        bool
 	NoSpeculate     bool
+	AbstractCRC     bool
 }
 
 type stats struct {
@@ -161,6 +163,43 @@ type Program struct {
 
 	postdom map[*ssa.Function][]int
 	pdmu    sync.Mutex
+}
+
+type fnInfo struct {
+	idx map[ssa.Value]int
+	n   int
+}
+
+var fnInfos sync.Map // *ssa.Function -> *fnInfo
+
+// funcInfo numbers the SSA values of a function once (parameters, free variables, value-producing
+// instructions) so that frames can use a slice instead of a map for their registers.
+func (p *Program) funcInfo(fn *ssa.Function) *fnInfo {
+	if v, ok := fnInfos.Load(fn); ok {
+		return v.(*fnInfo)
+	}
+	info := &fnInfo{idx: map[ssa.Value]int{}}
+	add := func(v ssa.Value) {
+		if _, ok := info.idx[v]; !ok {
+			info.idx[v] = info.n
+			info.n++
+		}
+	}
+	for _, pr := range fn.Params {
+		add(pr)
+	}
+	for _, fv := range fn.FreeVars {
+		add(fv)
+	}
+	for _, b := range fn.Blocks {
+		for _, ins := range b.Instrs {
+			if v, ok := ins.(ssa.Value); ok {
+				add(v)
+			}
+		}
+	}
+	act, _ := fnInfos.LoadOrStore(fn, info)
+	return act.(*fnInfo)
 }
 
 var forkSites = map[string]int{}
